@@ -81,7 +81,7 @@ CHECKS = {
     ),
     "C12": (
         "exploration",
-        "history monitor: random call histories over {solve of 39 requests: 17 fixed ones incl. footprint/dispersion twins on identical geometry, a same-shape different-physics pair and integer / list spellings of the same values, and a base request with 21 variants that each differ from it in exactly one argument of the solver signature (same cell / pad / mode counts where the argument allows), NUM_THREADS in 1/2/4/8, FFT-manager reset / re-creation, poisoned / foreign / missing wisdom file, allocation noise}; every solve compared bitwise with earlier results of the same (request, thread setting), and against a table produced by solving each request alone in a fresh subprocess",
+        "history monitor: random call histories over {solve of 39 requests: 17 fixed ones incl. footprint/dispersion twins on identical geometry, a same-shape different-physics pair and integer / list spellings of the same values, and a base request with 21 variants that each differ from it in exactly one argument of the solver signature (same cell / pad / mode counts where the argument allows), NUM_THREADS in 1..8, FFT-manager reset / re-creation, poisoned / foreign / missing wisdom file, allocation noise}; every solve compared bitwise with earlier results of the same (request, thread setting), and against a table produced by solving each request alone in a fresh subprocess",
         "32 quick / 960 thorough histories of 60 operations on concurrently running workers; distinct process-state tuples and (state -> request) transitions are counted and reported; single vs double compared at the property's 1e-5.",
         "Trusted: the fresh-process table is one execution per request per run; schedules are those that occur on this 16-core sandbox under load.",
         "DESIGN.md section 4, C12",
